@@ -27,7 +27,8 @@ import CE.Canon
   * `chunked_document_roundtrip` — the same for documents that also contain arrays SENT IN CHUNKS
     (`arrayBegin`, any number of `arrayChunk n more`, the data of each chunk in any number of
     `arrayData` pieces; strings, resource ids, remote references and every byte-multiple typed array), media objects and
-    custom binary data (begin event with the media type / type number, then chunks): this is the part of
+    custom binary data (begin event with the media type / type number, then chunks; or their one-event
+    forms, and the one-event form of a remote reference): this is the part of
     the encoder with state (the first chunk decides between the short header and header + chunk
     length) and of the decoder that loops over chunk headers (CE/Cbe/ItemRoundTrip.lean).
   * the per-event prefix-code round trips for integers, with arbitrary following bytes
